@@ -59,6 +59,27 @@ func init() {
 
 const c20Enum = 120 * 121
 
+// a second exhaustive block over characters whose UTF-8 encodings share their last byte (é c3a9, ĩ c4a9, ũ c5a9):
+// all strings of length 0..3
+var c20Strings2 []string
+
+const c20Enum2 = 84 * 85
+
+func init() {
+	cur := []string{""}
+	c20Strings2 = append(c20Strings2, "")
+	for l := 1; l <= 3; l++ {
+		var next []string
+		for _, p := range cur {
+			for _, a := range []string{"a", "é", "ĩ", "ũ"} {
+				next = append(next, p+a)
+			}
+		}
+		c20Strings2 = append(c20Strings2, next...)
+		cur = next
+	}
+}
+
 type c20Case struct {
 	Visible []string
 	Hidden  []string
@@ -74,9 +95,13 @@ func c20Gen(c *Ctx) (cs c20Case, cell string) {
 		word := c20Strings[int(k)%121]
 		return c20Case{Visible: []string{name}, Word: word, HasWord: true}, "enum-pair"
 	}
+	if k < c20Enum+c20Enum2 {
+		k -= c20Enum
+		return c20Case{Visible: []string{c20Strings2[1+int(k)/85]}, Word: c20Strings2[int(k)%85], HasWord: true}, "enum-pair-shared-tail-bytes"
+	}
 	r := c.R
 	mode := int(k % 6)
-	alpha := []string{"a", "b", "c", "d", "e", "x", "é", "è", "ê", "-", "1", "λ", "μ"}
+	alpha := []string{"a", "b", "c", "d", "e", "x", "é", "è", "ê", "-", "1", "λ", "μ", "ĩ", "ũ"}
 	mk := func(lo, hi int) string {
 		n := r.Range(lo, hi)
 		s := ""
@@ -446,16 +471,16 @@ func init() {
 		Title: "Unknown-command diagnostics name the truly nearest command",
 		Cases: func(tier string) int64 {
 			if tier == "thorough" {
-				return c20Enum + 1000000
+				return c20Enum + c20Enum2 + 1000000
 			}
 			if tier == "race" {
 				return 0
 			}
-			return c20Enum + 30000
+			return c20Enum + c20Enum2 + 30000
 		},
 		Run:           c20Run,
 		MinNontrivial: 200,
-		Rule: "cases 0..14519 enumerate every (visible name of length 1..4, word of length 0..4) pair over {a,b,é} exhaustively; the rest are seeded random sets of 0-8 visible and 0-3 hidden names (near relatives of each other) with words that are near misses of visible/hidden names, unrelated, very short/long, or absent. " +
+		Rule: "cases 0..14519 enumerate every (visible name of length 1..4, word of length 0..4) pair over {a,b,é} exhaustively, cases 14520..21659 every (name of length 1..3, word of length 0..3) pair over {a,é,ĩ,ũ} (characters whose UTF-8 encodings share their last byte); the rest are seeded random sets of 0-8 visible and 0-3 hidden names (near relatives of each other) with words that are near misses of visible/hidden names, unrelated, very short/long, or absent. " +
 			"A case is non-trivial when ParseArgs produced an ErrUnknownCommand/ErrCommandRequired diagnosis that the oracle judged against the rune-Levenshtein reference; distinct = distinct (cell, #visible, min distance, #ties, word length).",
 		Assumptions: []string{"ties at minimum distance: any minimal name is accepted", "when byte and rune length of the candidate put dist/len on different sides of 0.5 the case is unspecified", "names contain no ', ' or ' or ' so the enumeration can be split unambiguously"},
 		Technique:   "runtime reference-model monitor: every diagnosis compared with an independent rune-Levenshtein oracle; exhaustive small-scope enumeration + seeded random sets",
